@@ -71,7 +71,8 @@ theorem run_safe (hL : L.OK) :
       WInv L ck w d done D recs → ChecksumOK L ck w d calls → Bounded L ck w calls →
       ∀ (n : Nat) (χ : List (List Bool)),
         SafeAt L ck ((d.execAll ((trace L ck w calls).take n)).crash χ)
-          (doneFrom L ck w done calls n) (progFrom L ck w calls n) (recs ++ recsOf L ck w calls) := by
+          (doneFrom L ck w done calls n) (progFrom L ck w calls n) (recs ++ recsOf L ck w calls) ∧
+        ReopenOK L ck ((d.execAll ((trace L ck w calls).take n)).crash χ) := by
   intro calls
   induction calls with
   | nil =>
@@ -120,7 +121,8 @@ theorem run_safe (hL : L.OK) :
             rw [hops]; simp only [List.length_append, List.length_cons, List.length_nil] at hle ⊢; omega
           simp only [hlen, ↓reduceIte]
           rw [ht', execAll_append, commit_root]
-          have := torn_safe hL q1 (new := commitRoot ck w heads fact) rfl rfl hT _
+          have := torn_safe hL q1 (new := commitRoot ck w heads fact) rfl rfl
+            (by have := h.fs; omega) hT _
             (crash_pre _ hp1 _ _ χ) (recsOf L ck (w.commit L ck heads fact).1 cs) hfut'
           simpa [Disk.execAll, Disk.exec, Call.toRec] using this
         · obtain ⟨q1, hp1⟩ := commit_data_quiet hL h heads refs
@@ -133,7 +135,8 @@ theorem run_safe (hL : L.OK) :
             rw [hops]; simp only [List.length_append, List.length_cons, List.length_nil] at hle ⊢; omega
           simp only [hlen, ↓reduceIte]
           rw [ht', execAll_append, commit_root]
-          have := torn_safe hL q1 (new := commitRoot ck w heads fact) rfl rfl hT _
+          have := torn_safe hL q1 (new := commitRoot ck w heads fact) rfl rfl
+            (by have := h.fs; omega) hT _
             (crash_pre_body _ hp1 _ _ χ) (recsOf L ck (w.commit L ck heads fact).1 cs) hfut'
           simpa [Disk.execAll, Disk.exec, Call.toRec] using this
     · -- the call completed: continue with the invariant after it
@@ -151,6 +154,7 @@ theorem run_safe (hL : L.OK) :
           have hb : (commitRoot ck w heads fact).Bounded := by
             have := hbd.1; simp only [commit_root] at this; exact this
           have q3 := commit_done hL q1 hp1 hb (commitRoot_valid ck w heads fact) rfl rfl
+            (by have := h.fs; omega)
           refine ⟨w.root.free.toNat + 4 + heads.length, ⟨?_, ?_, ?_⟩⟩
           · have e1 : (commitRoot ck w heads fact).free.toNat = w.root.free.toNat + 4 + heads.length := by
               simp only [commitRoot, Int.toNat_natCast]
